@@ -6,7 +6,7 @@ P="$1"; shift
 cd /repo || exit 2
 if ! git diff --quiet; then echo "REPO DIRTY - refusing"; exit 2; fi
 git apply "$P" || { echo "PATCH DOES NOT APPLY"; exit 2; }
-trap 'cd /repo && git checkout -- . && git clean -fdq tests 2>/dev/null; echo "[reverted]"' EXIT
+trap 'cd /repo && git checkout -- . && git clean -fdq tests src 2>/dev/null; echo "[reverted]"' EXIT
 echo "== baseline tests with the change"
 CARGO_NET_OFFLINE=true cargo nextest run --workspace --no-fail-fast --test-threads 8 --offline 2>&1 | tail -1
 cd /verif
